@@ -14,6 +14,7 @@ Separate Extraction
   McInst.i_get_state McInst.i_set_state McInst.r_cb_run McInst.r_run McInst.r_take_choice McInst.r_all_choices McInst.r_get_state
   McInst.c_ops McInst.a_ops
   PredInst.pred_battery
+  SimInst.y_snapshot SimInst.y_snapshot_ref
   SimInst.y_op SimInst.y_sys0 SimInst.y_dump SimInst.draws_of TimeF64.f_add TimeF64.f_sub TimeF64.f_mul TimeF64.f_div TimeF64.f_lt TimeF64.f_le McInst.clock_of Script.pstate0 McSys.net_send McSys.net_apply McSys.alternatives
   DebugFmt.debug_trace
   BinNat.N.leb BinNat.N.add BinNat.N.mul BinNat.N.eqb BinNat.N.compare.
